@@ -240,7 +240,7 @@ func (br *batchRun) runH1(cp *ConnPlan) {
 				atomic.AddInt32(&br.disconnects, 1)
 				return
 			}
-			c.Close() // MOSN ended the connection: go on with a new one
+			closeConn(c.C, true) // MOSN ended the connection: go on with a new one
 			c = nil
 		}
 	}
@@ -298,6 +298,7 @@ func (br *batchRun) runBolt(cp *ConnPlan) {
 		if atomic.LoadInt32(fired) == 1 && len(byID) > 0 {
 			atomic.AddInt32(&br.disconnects, 1)
 		}
+		closeConn(x.C, true)
 		x.Close()
 		return
 	}
@@ -342,7 +343,7 @@ func (br *batchRun) runTCP(cp *ConnPlan) {
 		if atomic.LoadInt32(fired) == 1 {
 			atomic.AddInt32(&br.disconnects, 1)
 		}
-		_ = c.Close()
+		closeConn(c, true)
 		return
 	}
 	if cp.Client == "wait" {
